@@ -533,6 +533,15 @@ def run(ctx, name, kind, **kw):
             got = _try(ctx, "sequence_roundtrip", der.remove_sequence, enc + suf)
             if got is not None:
                 ctx.check(_norm(got) == (body, suf), "sequence_roundtrip", "sequence of %d bytes" % n, dict(n=n))
+            # the same sequence with its elements handed over in other bytes-like containers, as ONE element and as three
+            for conv in (bytes, bytearray, memoryview):
+                for parts in ((body,), (body[: n // 3], body[n // 3: 2 * (n // 3)], body[2 * (n // 3):])):
+                    try:
+                        enc2 = bytes(der.encode_sequence(*[conv(x_) for x_ in parts]))
+                    except Exception as e_:
+                        enc2 = "raised %s: %s" % (type(e_).__name__, e_)
+                    ctx.case("roundtrip.sequence", key="%s|%d" % (conv.__name__, len(parts)))
+                    ctx.check(enc2 == R.enc_seq(body), "sequence_encoder_noncanonical", "encode_sequence of %d element(s) given as %s, %d bytes in all: %s" % (len(parts), conv.__name__, n, enc2 if isinstance(enc2, str) else enc2[:24].hex()), dict(n=n, container=conv.__name__, elements=len(parts)))
             # constructed
             tag = rng.randrange(0, 31)
             enc = der.encode_constructed(tag, body)
